@@ -259,7 +259,7 @@ theorem Stripe.recover_word {k m bs : Nat} {data parity : List Bytes}
         wordAt (wordsOf (data.getD j [])) w) * toMatrix N ⟨i, hik⟩ a := by
     intro a
     have ha : a.val < (availOf k m missing).length := by rw [hal]; exact a.isLt
-    rw [getD_map' _ _ 0 _ ha, matRow_getD N hik a.isLt]
+    rw [rs_getD_map' _ _ 0 _ ha, matRow_getD N hik a.isLt]
     have hr : (availOf k m missing).getD a 0 < k + m := by
       rw [getD_eq_getElem' ha]
       exact (availOf_mem (List.getElem_mem ha)).1
@@ -467,7 +467,7 @@ theorem Stripe.recover_parity {k m bs : Nat} {data parity : List Bytes}
         have hj : availData.getD a 0 < k := by
           rw [getD_eq_getElem' hlt]; exact hADlt _ (List.getElem_mem hlt)
         simp only [hS, hH]
-        rw [getD_map' _ _ 0 _ hak, availOf_prefix k m missing hlt]
+        rw [rs_getD_map' _ _ 0 _ hak, availOf_prefix k m missing hlt]
         unfold bufAt
         rw [if_pos hj, mul_comm]
       · rw [if_neg hlt, if_neg hlt]
